@@ -622,3 +622,24 @@ func ZZ_C13_request_object_signed() {
 }
 
 var _ = context.Background
+
+// ZZ_C13_reconfigured: the configured minimum length of state / nonce is RAISED between two requests on one
+// provider: the second request is validated against the value configured at that moment.
+func ZZ_C13_reconfigured() {
+	r := defaultRegistration()
+	w := newWorld(r)
+	q := request{clientID: "c1", responseType: "code", state: "state-0123456789", scope: "photos", redirect: redirectURI}
+	_, err := w.Provider.NewAuthorizeRequest(w.Ctx, world.Get(q.form()))
+	zz.Assume(err == nil)
+	w.Cfg.MinParameterEntropy = 16
+	q.state = zz.String("state", 18)
+	_, err = w.Provider.NewAuthorizeRequest(w.Ctx, world.Get(q.form()))
+	zz.Observe("err", world.ErrName(err))
+	if err == nil {
+		zz.Cover("reconfigured:accepted", true)
+		zz.Assert(len(q.state) >= 16, "reconfigured: accepted => state has the minimum length configured NOW")
+	} else {
+		zz.Cover("reconfigured:refused", true)
+		zz.Assert(len(q.state) < 16, "reconfigured: a state of the configured minimum length is accepted")
+	}
+}
